@@ -195,6 +195,9 @@ class MapInstr:
         if m is not None:
             parts.append(member_text(m))
         if a is not None:
+            import re as _re
+            if m is None and _re.fullmatch(r'\w+', a.strip()):
+                a = '{ %s }' % a          # a lone ident/number would be read as the member name
             parts.append(a)
         inner = ded_text(ev, self.ded) + ', '.join(parts)
         return '#[%s(%s)]' % (ev(self.name), inner) if inner else '#[%s]' % ev(self.name)
@@ -414,6 +417,11 @@ class Member:
         b = env.b
         by = {MapInstr: [], ChildInstr: [], ParentInstr: [], GhostInstr: [], GhostsInstr: [], 'literal': [], 'pattern': [], 'type_hint': []}
         for i in self.instrs:
+            if hasattr(i, 'inner'):           # optional instruction selected by a forked choice
+                c, _ = env.pick(i.ch)
+                i = i.inner(c)
+                if i is None:
+                    continue
             if isinstance(i, SimpleInstr):
                 by[i.kind].append(i.value(env, tabs, tys))
             else:
@@ -431,7 +439,14 @@ class Member:
         return b.mk('ast::Field', attrs=self.attrs_value(env, tabs, tys), idx=idx, member=m, member_str=self.name if self.name is not None else str(idx), ty=ty)
 
     def attrs_text(self, ev):
-        out = [i.text(ev) for i in self.instrs]
+        ins = []
+        for i in self.instrs:
+            if hasattr(i, 'inner'):
+                i = i.inner(ev(i.ch))
+                if i is None:
+                    continue
+            ins.append(i)
+        out = [i.text(ev) for i in ins]
         if self.repeat is not None:
             out.append(self.repeat.text(ev))
         if ev(self.skip_repeat):
